@@ -550,6 +550,18 @@ func TestSimBatch(t *testing.T) {
 					line = l
 				}
 			}
+			if line == "" && strings.Contains(string(out), "fatal error: ") && strings.Contains(string(out), "github.com/snower/slock/server.") {
+				// the Go runtime killed the worker (stack overflow, concurrent map access ...) inside
+				// code under test: the real server process would have died the same way
+				reason := "fatal"
+				if i := strings.Index(string(out), "fatal error: "); i >= 0 {
+					reason = strings.TrimSpace(strings.SplitN(string(out)[i+13:], "\n", 2)[0])
+				}
+				cls := "child_died_" + strings.ReplaceAll(reason, " ", "_")
+				prop := realos.Getenv("SIM_PROP")
+				line = "SIMRESULT " + mustJSON(&Result{Prop: prop, Seed: seed, Outcome: "violation", Hash: "fatal:" + cls,
+					Violations: []Violation{{Prop: prop, Class: cls, Detail: "the simulation worker was killed by the Go runtime inside the code under test: fatal error: " + reason + " (the real server process dies the same way)"}}})
+			}
 			if line == "" {
 				tail := string(out)
 				if len(tail) > 2000 {
